@@ -38,12 +38,19 @@ def cases(rng, tier):
     out = []
     for i in range(n):
         p = resgen.program(rng, allow_int_gather=(i % 10 == 0))
-        out.append({"wgsl": p["wgsl"], "family": "resources", "opts": {"encase": True}, "tags": p["tags"]})
+        # the layouts do not depend on the derive options: every option set must give layouts that validate
+        o = [{"encase": True}, {"bm_host": True, "bm_vertex": True}, {"encase": True}, {"encase": True, "serde": True, "mv": "Glam"},
+             {"encase": True}, {"bm_host": True, "mv": "Nalgebra"}][i % 6]
+        out.append({"wgsl": p["wgsl"], "family": "resources", "opts": dict(o), "tags": p["tags"]})
     # call-graph shapes that expose stale analysis caches shared between entry points (visibility too small for a later stage)
     for i in range(n // 10):
         out.append({"wgsl": W.diamond_program(rng, "global").render(), "family": "diamond_across_stages", "opts": {}, "tags": []})
         if i % 2 == 0:
             out.append({"wgsl": W.random_program(rng).render(), "family": "call_graph", "opts": {}, "tags": []})
+    # single-stage modules with workgroup / private variables: a binding first used by a later entry point is visible
+    for i in range(n // 25):
+        out.append({"wgsl": W.single_stage_late_user_program(rng, rng.choice(["compute", "compute", "fragment"])).render(),
+                    "family": "single_stage_late_user", "opts": {}, "tags": []})
     # many functions: a resource reached only through a helper with a large handle must still be visible to its stage
     for nh in ((70, 300) if tier != "thorough" else (70, 130, 300, 600)):
         out.append({"wgsl": W.many_functions_program(nh).render(), "family": "many_functions", "opts": {}, "tags": []})
@@ -95,6 +102,20 @@ def verdict_expr(c, r, ir, real):
             '%s && on_out %s (fun o => C02_features_ok %s o); kf_ms_float %s; kf_int_sampling %s %s]'
             % (ir, ir, ir, uses, ir, samp, ir, o, real, real, ir, uses, samp, "true" if stage else "false",
                "true" if bgl else "false", "true" if (stage and bgl) else "false", real, ir, ir, ir, samp))
+
+
+def verdict_expr_noout(c, r, ir):
+    """the returned text no longer matches the templates: clause (b) is decided by the real wgpu-core oracle alone, which
+    evaluates the layout entries of the returned text itself (harness/driver/src/wgpuval.rs)"""
+    ok = real_ok(r)
+    if r.get("valid") is not True or ok is None or r.get("result") != "ok":
+        return None
+    uses, samp = coq_uses(r)
+    stage, bgl = ok
+    w = r.get("wgpu") or {}
+    bad = [e for e in w.get("entry_points", []) if not (e.get("result") == "ok" or e.get("kind") == "input")]
+    c["note"] = "extraction failed (%s); real wgpu-core: %s" % (r.get("extract_err"), str(bad[:2] or w.get("bgl"))[:400])
+    return "[true; false; %s; kf_ms_float %s; kf_int_sampling %s %s]" % ("true" if (stage and bgl) else "false", ir, ir, samp)
 
 
 def nontrivial(c, r):
